@@ -2,7 +2,9 @@
 
 Instantiation grid: built-in integers of every width; elastic_integer<D, N>; wide_integer<D, N> (single- and
 multi-word storage); scaled_integer<Rep, power<e, radix>> for every even e in [-60, 60] over built-in, elastic and wide
-representations.  Fixed corner cases are always present; the rest of the grid varies with the seed.
+representations; overflow_integer<Rep, Tag> for every checked tag (trapping, throwing, saturated, undefined) over built-in,
+wide_integer (unsigned / signed, single- / multi-word) and rounding_integer representations, plain rounding_integer<Rep>,
+scaled_integer over overflow_integer.  Fixed corner cases are always present; the rest of the grid varies with the seed.
 """
 import random
 
@@ -28,6 +30,62 @@ def wd(d, n):
 
 def sc(rep, e, radix=2):
     return 'scaled_integer<%s, power<%d, %d>>' % (rep, e, radix)
+
+
+OVTAG = {'trp': 'trapping_overflow_tag', 'thr': 'cnl::_impl::throwing_overflow_tag', 'sat': 'saturated_overflow_tag',
+         'und': 'undefined_overflow_tag', 'nat': 'native_overflow_tag'}
+RDMODE = {'nrst': 'nearest_rounding_tag', 'tpi': 'tie_to_pos_inf_rounding_tag', 'ninf': 'neg_inf_rounding_tag',
+          'nat': 'native_rounding_tag'}
+
+
+def ov(rep, tag):
+    return 'overflow_integer<%s, %s>' % (rep, OVTAG[tag])
+
+
+def rd(rep, mode='nrst'):
+    return 'rounding_integer<%s, %s>' % (rep, RDMODE[mode])
+
+
+def ov_grid(tier, seed, rnd):
+    """overflow_integer<Rep, Tag> (and a few plain rounding_integer<Rep>): every checked tag over
+    built-in reps of every width, wide_integer reps (unsigned and signed; single-word 32/64/128-bit and
+    multi-word storage), rounding_integer reps over built-ins and wide_integer.  overflow_integer over a wide_integer
+    whose Narrowest is 64 bits wide does not compile in the library (its overflow tests compare with a
+    wide_integer<31, long> constant for which no comparison exists), so the wide reps use 8/16/32-bit Narrowest."""
+    thorough = tier == 'thorough'
+    checked = ['trp', 'thr', 'sat', 'und']
+    reps = []
+    # (a) unsigned representations that are not fundamental and do not widen on subtraction
+    for d, n in [(32, 'u32'), (64, 'u32'), (128, 'u32'), (129, 'u32'), (200, 'u32'), (64, 'u16'), (256, 'u32'), (100, 'u8')]:
+        reps.append(wd(d, n))
+    reps += [rd(CT['u32']), rd(CT['u64'], 'tpi'), rd(wd(64, 'u32'), 'ninf'), rd(wd(200, 'u32'))]
+    # (b) signed analogues
+    for d, n in [(31, 'i32'), (63, 'i32'), (127, 'i32'), (128, 'i32'), (200, 'i32'), (40, 'i8')]:
+        reps.append(wd(d, n))
+    reps += [rd(CT['i32']), rd(CT['i64'], 'ninf'), rd(wd(63, 'i32'), 'tpi')]
+    # fundamental representations of every width (narrow ones compute in overflow_integer<int>)
+    reps += [CT[t] for t in ['u32', 'u64', 'i32', 'i64', 'u8', 'i8', 'u16', 'i16', 'u128', 'i128']]
+    reps += [rd(CT['u16']), rd(CT['i8'], 'tpi')]
+    for _ in range(3 if not thorough else 12):
+        n = rnd.choice(['i32', 'u32'])
+        d = rnd.choice([rnd.randint(20, maxdig(n)), rnd.randint(maxdig(n) + 1, 330)])
+        reps.append(rnd.choice([wd(d, n), rd(wd(d, n), rnd.choice(['nrst', 'tpi', 'ninf']))]))
+    reps = list(dict.fromkeys(reps))
+    res = []
+    for i, r in enumerate(reps):
+        # every checked tag on the fixed corner representations of kinds (a); elsewhere two tags rotating with the seed
+        tags = checked if (i < 12 or thorough) else [checked[(i + seed) % 4], checked[(i + seed + 1 + i // 4 % 2) % 4]]
+        for t in tags:
+            res.append((ov(r, t), 12, True))
+    res.append((ov(wd(200, 'u32'), 'nat'), 12, True))
+    res.append((ov(CT['u32'], 'nat'), 12, True))
+    for r in [rd(CT['u32']), rd(wd(64, 'u32'), 'tpi'), rd(wd(200, 'u32'), 'ninf'), rd(CT['i16']), rd(wd(127, 'i32'))]:
+        res.append((r, 12, True))
+    # scaled_integer over a checked representation
+    res.append((sc(ov(wd(64, 'u32'), 'trp'), -20), 12, True))
+    res.append((sc(ov(wd(200, 'u32'), 'sat'), 8), 12, True))
+    res.append((sc(ov(rd(CT['u32']), 'thr'), -30), 12, True))
+    return res
 
 
 def grid(tier, seed):
@@ -84,6 +142,7 @@ def grid(tier, seed):
         g['sc_el'].append((sc(el(d, n), e), 80, True))
     for d, n, e in [(200, 'i32', -40), (129, 'u32', 60)] + ([(300, 'i64', -60), (140, 'i32', 2)] if thorough else []):
         g['sc_wd'].append((sc(wd(d, n), e), 40, True))
+    g['ov'] = ov_grid(tier, seed, rnd)
     return g
 
 
@@ -102,9 +161,9 @@ def chunks(xs, n):
 def tus(tier, seed):
     g = grid(tier, seed)
     res = []
-    per = {'int_small': 4, 'int_large': 3, 'el': 8, 'wd': 2, 'sc': 10, 'sc_el': 6, 'sc_wd': 1}
+    per = {'int_small': 4, 'int_large': 3, 'el': 8, 'wd': 2, 'sc': 10, 'sc_el': 6, 'sc_wd': 1, 'ov': 8}
     base = 0
-    for kind in ['int_small', 'int_large', 'el', 'wd', 'sc', 'sc_el', 'sc_wd']:
+    for kind in ['int_small', 'int_large', 'el', 'wd', 'sc', 'sc_el', 'sc_wd', 'ov']:
         for i, ch in enumerate(chunks(g[kind], per[kind])):
             base += 1
             src = tu_src(ch, base)
